@@ -8,7 +8,7 @@
         kani::assume(n <= 4);
         std::str::from_utf8(&b[..n]).ok()
     }
-//# ob name=lstrip_block_contract tier=thorough fn=compiler::lexer::lstrip_block kind=bounded bound="all UTF-8 strings of length <= 4 bytes" stmt="lstrip_block(s) is a prefix of s; the removed suffix contains no newline; s is changed only if the result is empty or ends in LF (only whitespace between a line start and the tag is ever removed)"
+//# ob name=lstrip_block_contract fn=compiler::lexer::lstrip_block kind=bounded bound="all UTF-8 strings of length <= 4 bytes" stmt="lstrip_block(s) is a prefix of s; the removed suffix contains no newline; s is changed only if the result is empty or ends in LF (only whitespace between a line start and the tag is ever removed)"
     #[kani::proof]
     #[kani::unwind(7)]
     fn lstrip_block_contract() {
@@ -210,7 +210,8 @@
             (src, out)
         }
         let default_delims: [&str; 6] = ["{%", "%}", "{{", "}}", "{#", "#}"];
-        let texts = ["", "a", " ", "\n", "  \n", "\n  ", " a ", "\r\n", "\t", " \n \n ", "a\n  "];
+        // (a lone CR inside the blanks before a tag is not horizontal whitespace: nothing names it for removal)
+        let texts = ["", "a", " ", "\n", "  \n", "\n  ", " a ", "\r\n", "\t", " \n \n ", "a\n  ", "a\n \r ", "\r  "];
         let mut tags = Vec::new();
         for kind in [Kind::Var, Kind::Block, Kind::Comment, Kind::Raw] { for lm in [' ', '-', '+'] { for rm in [' ', '-', '+'] {
             if kind == Kind::Var && (lm == '+' || rm == '+') { continue; }
